@@ -147,7 +147,7 @@ def reroute(ops, info, rng):
 class C04(Prop):
     id = "C04"
     level = "exploration"
-    RUNS = {"quick": 600, "thorough": 12000}
+    RUNS = {"quick": 1200, "thorough": 12000}
     BUDGET = {"quick": 85, "thorough": 900}
     ORACLES = ("C04", "O-DELIVERY")
     RULE = ("for every class: a template's logical sample set as a dependency DAG; (order) two random linearisations of "
